@@ -136,13 +136,17 @@ def round_case(rec, label, x, eps, rmax):
             ns = float(np.linalg.norm(s))
             if ns > 0:
                 tot += (e / ns) ** 2
-        if tot > eps * eps * (1 + 1e-9) + 1e-300:
+        if tot > eps * eps * (1 + 1e-5) + 1e-300:
             return "per-bond allowances sum to %.6g > eps^2 = %.6g" % (tot, eps * eps)
         if not binding:
             dy = dense_of(y).to(dx.dtype)
             err = float(tn.linalg.norm((dy - dx).reshape(-1)))
             meps = 1.2e-7 if x.cores[0].dtype in (tn.float32,) else 2.3e-16
-            if err > eps * nrm * (1 + 1e-7) + 200 * meps * nrm * math.sqrt(max(d, 1)) + 1e-300:
+            # roundoff scale: the cores' own magnitudes (operands built by cancellation, e.g. (x+y)-y, carry roundoff of that size)
+            scale = 1.0
+            for c in x.cores:
+                scale *= max(float(tn.linalg.norm(c.reshape(-1))), 1e-300)
+            if err > eps * nrm * (1 + 1e-7) + 200 * meps * max(nrm, scale) * math.sqrt(max(d, 1)) + 1e-300:
                 return "error %.6g exceeds eps*||x|| = %.6g (eps=%g, ranks %s -> %s)" % (err, eps * nrm, eps, Rb, R)
         box["reduced"] = R != Rb
         return None
